@@ -900,6 +900,8 @@ class MultiFit(FitBase):
             fit.release_parameter(name)
 
     def do_fit(self, asymmetric_parameter_errors=False):
+        # parameter values that were set through a member fit are not known to the minimizer yet
+        self._fitter.set_all_fit_parameter_values(self.parameter_values)
         _fit_result = super(MultiFit, self).do_fit(asymmetric_parameter_errors=asymmetric_parameter_errors)
         self._update_singular_fits()
         return _fit_result
